@@ -39,7 +39,7 @@ def one(name):
             (d / "patch.diff").write_text(diff)
             res["rebased"] = True
         r = subprocess.run(["/venv/bin/python", "run_check.py", prop, "quick"], cwd=V, capture_output=True, text=True,
-                           env={"VERIF_REPO": str(D), "VERIF_EVIDENCE_DIR": str(D / "evidence"), "PATH": "/usr/bin:/bin:/usr/local/bin", "HOME": "/root", "PYTHONHASHSEED": "0"})
+                           env={"VERIF_REPO": str(D), "VERIF_EVIDENCE_DIR": str(D / "evidence"), "VERIF_OUT": str(D / "out"), "PATH": "/usr/bin:/bin:/usr/local/bin", "HOME": "/root", "PYTHONHASHSEED": "0"})
         res["rc"] = r.returncode
         res["outcome"] = {1: "CAUGHT", 0: "MISSED"}.get(r.returncode, "ERROR")
         v = sorted({" ".join(x for x in ln.split() if x.startswith(("clauses=", "class="))) for ln in r.stdout.splitlines()
